@@ -20,6 +20,14 @@ element of the derived view is the address of the parent element the index expre
 (`*_addr`), that this parent element exists (`*_inRange`, `within_parent`) and hence lies inside the
 parent allocation (`within_allocation`).  Ranks, extents, strides and arguments are arbitrary
 (lists of any length), `checked` selects the build.
+
+Extents.  Every member but `T` builds its result with one of the two view constructors of `Array`, which (F-76)
+set ALL dimensions to zero as soon as one of them is zero (`canonDims`, the convention of `Array::resize` for
+arrays without elements): the extents of a view are the per-dimension counts, or all zero when one of them is
+zero.  Then `empty()` (which tests dimension 0 only) is true exactly when the view has no element, so none of the
+library's loops over "all elements" is entered for a selection that denotes nothing (`C06_empty_view_canonical`,
+`C06_nonempty_unchanged`, `C06_reachable_canonical`, `C06_isEmpty_iff_no_element`).  The address theorems are
+unaffected: `data_` and the offsets are stored as computed.
 -/
 namespace Adept.Views
 
@@ -32,14 +40,18 @@ namespace Adept.Views
 theorem C06_slice_addr {v w : View} {args : List Ix} {checked : Bool} (h : slice v args checked = .ok w) :
     w.WF ∧ ∀ ix : List Int, ix.length = w.dims.length →
       (expandSlice v.dims args ix).length = v.dims.length ∧
-      addr w ix = addr v (expandSlice v.dims args ix) := slice_addr h
+      addr w ix = addr v (expandSlice v.dims args ix) := by
+  obtain ⟨u, hu, rfl⟩ := construct_ok h
+  obtain ⟨h1, h2⟩ := sliceRaw_addr hu
+  exact ⟨canon_WF.mpr h1, fun ix hix => h2 ix (by simpa [View.canon, canonDims_length] using hix)⟩
 
 /-- rank of `A(i0,…)`: one dimension per ranged argument (scalar-indexed dimensions are dropped),
     and there must be one argument per dimension -/
 theorem C06_slice_rank {v w : View} {args : List Ix} {checked : Bool} (h : slice v args checked = .ok w) :
     w.dims.length = rangedCount args ∧ args.length = v.dims.length := by
-  obtain ⟨inc, hg, _⟩ := slice_ok h
-  exact sliceGo_rank checked _ _ _ _ _ _ hg
+  obtain ⟨u, hu, rfl⟩ := construct_ok h
+  obtain ⟨inc, hg, _⟩ := sliceRaw_ok hu
+  simpa [View.canon, canonDims_length] using sliceGo_rank checked _ _ _ _ _ _ hg
 
 /-- extent of a ranged dimension: the C++ formula `(end + stride - begin)/stride` (truncating), which
     for a direction-consistent range is the documented count `⌊|e-b|/|s|⌋ + 1`, is maximal (one more
@@ -67,7 +79,7 @@ theorem C06_subset_addr {v w : View} {be : List (EndExpr × EndExpr)} {checked :
     (h : subset v be checked = .ok w) :
     w.WF ∧ w.dims.length = v.dims.length ∧ ∀ ix : List Int, ix.length = w.dims.length →
       addr w ix = addr v (expandSlice v.dims (be.map fun p => Ix.range p.1 p.2) ix) := by
-  obtain ⟨h1, h2⟩ := slice_addr h
+  obtain ⟨h1, h2⟩ := C06_slice_addr h
   obtain ⟨h3, h4⟩ := C06_slice_rank h
   refine ⟨h1, ?_, fun ix hix => (h2 ix hix).2⟩
   rw [h3, ← h4]
@@ -76,13 +88,15 @@ theorem C06_subset_addr {v w : View} {be : List (EndExpr × EndExpr)} {checked :
   | nil => rfl
   | cons p ps ih => simp [rangedCount, ih]
 
-/-- `A[i]`: the rest of the dimensions, at leading index `i` -/
+/-- `A[i]`: the rest of the dimensions (all zero if one of them is zero), at leading index `i` -/
 theorem C06_sub1_addr {v w : View} {e : EndExpr} {checked : Bool} (hwf : v.WF) (h : sub1 v e checked = .ok w) :
-    w.WF ∧ w.dims = v.dims.tail ∧ ∀ ix : List Int, ix.length = w.dims.length →
+    w.WF ∧ w.dims = canonDims v.dims.tail ∧ ∀ ix : List Int, ix.length = w.dims.length →
       addr w ix = addr v (e.resolve (v.dims.headD 0) :: ix) := by
-  obtain ⟨h1, h2⟩ := sub1_addr hwf h
-  obtain ⟨d, ds, s, ss, hd, _, rfl, _⟩ := sub1_ok h
-  exact ⟨h1, by simp [hd], fun ix hix => (h2 ix hix).2⟩
+  obtain ⟨u, hu, rfl⟩ := construct_ok h
+  obtain ⟨h1, h2⟩ := sub1Raw_addr hwf hu
+  obtain ⟨d, ds, s, ss, hd, _, rfl, _⟩ := sub1Raw_ok hu
+  exact ⟨canon_WF.mpr h1, by simp [View.canon, hd],
+    fun ix hix => (h2 ix (by simpa [View.canon, canonDims_length] using hix)).2⟩
 
 /-- `A.T()`: element `(i,j)` is parent element `(j,i)`; extents swapped -/
 theorem C06_T_addr {v w : View} (h : transpose v = .ok w) :
@@ -92,13 +106,21 @@ theorem C06_T_addr {v w : View} (h : transpose v = .ok w) :
   exact ⟨h1, by simp [hd], fun i j => (h2 [i, j] rfl).2⟩
 
 /-- `A.permute(p)`: new dimension `i` is old dimension `p i` (extent and offset), so element `ix` is the
-    parent element whose coordinate `p i` is `ix i` (`expandPermute`) -/
+    parent element whose coordinate `p i` is `ix i` (`expandPermute`); no extent is zero (`permute` rejects an
+    array with a zero extent: `empty_array` / `invalid_dimension`) -/
 theorem C06_permute_addr {v w : View} {p : List Int} (h : permute v p = .ok w) :
-    w.WF ∧ w.dims = p.map (fun x => v.dims.getD x.toNat 0) ∧
+    w.WF ∧ w.dims = p.map (fun x => v.dims.getD x.toNat 0) ∧ (∀ d ∈ w.dims, d ≠ 0) ∧
     ∀ ix : List Int, ix.length = w.dims.length → addr w ix = addr v (expandPermute v.dims.length p ix) := by
-  obtain ⟨h1, h2⟩ := permute_addr h
-  obtain ⟨_, _, rfl, _⟩ := permute_ok h
-  exact ⟨h1, rfl, fun ix hix => (h2 ix hix).2⟩
+  obtain ⟨u, hu, rfl⟩ := construct_ok h
+  obtain ⟨h1, h2⟩ := permuteRaw_addr hu
+  have hpos := permuteRaw_pos hu
+  obtain ⟨_, _, rfl, _⟩ := permuteRaw_ok hu
+  have hc : canonDims (p.map fun x => v.dims.getD x.toNat 0) = p.map fun x => v.dims.getD x.toNat 0 :=
+    canonDims_of_pos hpos
+  refine ⟨canon_WF.mpr h1, hc, ?_, fun ix hix => (h2 ix ?_).2⟩
+  · show ∀ d ∈ canonDims _, d ≠ 0
+    rw [hc]; exact hpos
+  · simpa [View.canon, canonDims_length] using hix
 
 /-- `A.diag_vector(k)` of an `n × n` matrix: extent `n - |k|`, element `i` is `A(i, i+k)` for `k ≥ 0`
     and `A(i-k, i)` for `k < 0` -/
@@ -106,9 +128,11 @@ theorem C06_diag_addr {v w : View} {k : Int} {n : Nat} {s0 s1 : Int} (hd : v.dim
     (hn : 0 < n) (h : diagVector v k = .ok w) :
     w.dims = [((n : Int) - k.natAbs).toNat] ∧ w.strides = [s0 + s1] ∧ (k.natAbs : Int) ≤ n ∧
     ∀ i : Int, addr w [i] = addr v (if k ≥ 0 then [i, i + k] else [i - k, i]) := by
-  obtain ⟨h1, h2, h3⟩ := diag_ok hd hs hn h
-  refine ⟨h2, h3, h1, fun i => ?_⟩
-  have := ((diag_addr h).2 [i] (by simp [h2])).2
+  obtain ⟨u, hu, rfl⟩ := construct_ok h
+  obtain ⟨h1, h2, h3⟩ := diagRaw_ok hd hs hn hu
+  refine ⟨by simp only [View.canon, h2, canonDims_singleton], h3, h1, fun i => ?_⟩
+  have := ((diagRaw_addr hu).2 [i] (by simp [h2])).2
+  rw [canon_addr]
   simpa [expandOp] using this
 
 /-- `A.submatrix_on_diagonal(b,e)`: the `(e-b+1) × (e-b+1)` block `A(range(b,e),range(b,e))`;
@@ -117,22 +141,34 @@ theorem C06_subdiag_addr {v w : View} {b e : Int} (h : submatrixOnDiagonal v b e
     w.WF ∧ w.dims = [(e - b + 1).toNat, (e - b + 1).toNat] ∧ w.strides = v.strides ∧
     (∃ d : Nat, v.dims = [d, d] ∧ 0 ≤ b ∧ b ≤ e ∧ e < d) ∧
     ∀ i j : Int, addr w [i, j] = addr v [i + b, j + b] := by
-  obtain ⟨h1, h2⟩ := subdiag_addr h
-  obtain ⟨d, s0, s1, hd, hs, h3, h4, h5, rfl⟩ := subdiag_ok h
-  exact ⟨h1, rfl, hs.symm, ⟨d, hd, h3, h4, h5⟩, fun i j => (h2 [i, j] rfl).2⟩
+  obtain ⟨u, hu, rfl⟩ := construct_ok h
+  obtain ⟨h1, h2⟩ := subdiagRaw_addr hu
+  obtain ⟨d, s0, s1, hd, hs, h3, h4, h5, rfl⟩ := subdiagRaw_ok hu
+  have hc : canonDims [(e - b + 1).toNat, (e - b + 1).toNat] = [(e - b + 1).toNat, (e - b + 1).toNat] :=
+    canonDims_of_pos (by intro x hx; simp at hx; omega)
+  exact ⟨canon_WF.mpr h1, hc, hs.symm, ⟨d, hd, h3, h4, h5⟩, fun i j => (h2 [i, j] rfl).2⟩
 
-/-- `v.reshape(dims)` of a rank-1 view with any stride: extents `dims`, element `ix` is vector
-    element number `lin dims ix` (row-major position) -/
+/-- `v.reshape(dims)` of a rank-1 view with any stride: extents `dims` (all zero if one of them is zero, i.e.
+    when an empty vector is reshaped), element `ix` is vector element number `lin dims ix` (row-major position) -/
 theorem C06_reshape_addr {v w : View} {nd : List Int} (h : reshape v nd = .ok w) :
-    w.WF ∧ w.dims = nd.map Int.toNat ∧ (∃ d0 : Nat, v.dims = [d0] ∧ prodInt nd = d0) ∧
+    w.WF ∧ w.dims = canonDims (nd.map Int.toNat) ∧ (∃ d0 : Nat, v.dims = [d0] ∧ prodInt nd = d0) ∧
     ∀ ix : List Int, ix.length = w.dims.length → addr w ix = addr v [lin (nd.map Int.toNat) ix] := by
-  obtain ⟨h1, h2⟩ := reshape_addr h
-  obtain ⟨d0, s0, hd, _, _, hp, _, rfl⟩ := reshape_ok h
-  exact ⟨h1, rfl, ⟨d0, hd, hp⟩, fun ix hix => (h2 ix hix).2⟩
+  obtain ⟨u, hu, rfl⟩ := construct_ok h
+  obtain ⟨h1, h2⟩ := reshapeRaw_addr hu
+  obtain ⟨d0, s0, hd, _, _, hp, _, rfl⟩ := reshapeRaw_ok hu
+  exact ⟨canon_WF.mpr h1, rfl, ⟨d0, hd, hp⟩,
+    fun ix hix => (h2 ix (by simpa [View.canon, canonDims_length] using hix)).2⟩
 
-/-- `A.soft_link()` is the same view -/
-theorem C06_softlink_addr {v w : View} (h : softLink v = .ok w) : w = v := by
-  simp only [softLink] at h; cases h; rfl
+/-- `A.soft_link()` is the same view: same `data_`, same offsets, the same extents for every array the library can
+    hand out (its extents are canonical already, `C06_reachable_canonical`); it is built by the second view
+    constructor, so in general the extents are the canonical ones -/
+theorem C06_softlink_addr {v w : View} (h : softLink v = .ok w) :
+    w = v.canon ∧ (v.dims = canonDims v.dims → w = v) := by
+  simp only [softLink, construct] at h
+  cases h
+  refine ⟨rfl, fun hc => ?_⟩
+  cases v with
+  | mk b d s => simp only [View.canon] at hc ⊢; rw [← hc]
 
 /-! ## composition -/
 
@@ -171,6 +207,98 @@ theorem C06_within_allocation (checked rowMajor : Bool) (dims : List Nat) (ops :
   rw [h2]
   exact fresh_addr_bounds rowMajor dims _ h1
 
+/-! ## views without elements (F-76)
+
+`applyRaw` is what each member function computes and hands to the view constructor — the result of the tree before
+F-76, where `T(__,range(2,1),__)` had the extents `(2,0,4)`, was not `empty()` (dimension 0 is 2) and the library's
+own loops (`= scalar`, `sum`, …) were entered for it.  `apply` is the constructed view. -/
+
+/-- ANY zero extent ⇒ ALL extents zero, `empty()` is true and the view denotes no element: it has no valid index and
+    the enumeration of its elements is empty.  Holds for the result of every operation that builds its result with a
+    view constructor (all but `T`) whatever the receiver, and for `T` of a receiver whose extents are canonical
+    (every array the library hands out, `C06_reachable_canonical`). -/
+theorem C06_empty_view_canonical {checked : Bool} {v w : View} {op : Op}
+    (hop : op.constructs = true ∨ v.dims = canonDims v.dims)
+    (h : apply checked v op = .ok w) (hz : 0 ∈ w.dims) :
+    (∀ d ∈ w.dims, d = 0) ∧ w.isEmpty = true ∧ allIndices w.dims = [] ∧ ∀ ix : List Int, ¬ InRange ix w.dims := by
+  have hc : w.Canonical := apply_canonical hop h
+  have hall := canonical_all_zero hc hz
+  refine ⟨hall, ?_, allIndices_of_zero hz, fun ix => not_inRange_of_zero hz⟩
+  unfold View.isEmpty
+  cases hd : w.dims with
+  | nil => rw [hd] at hz; simp at hz
+  | cons d ds => simp [hall d (by rw [hd]; simp)]
+
+/-- NO zero extent ⇒ exactly the old result: the view constructor changes nothing (same `data_`, extents, offsets),
+    in both directions, and errors are the same errors. -/
+theorem C06_nonempty_unchanged (checked : Bool) (v : View) (op : Op) :
+    (∀ u, applyRaw checked v op = .ok u → 0 ∉ u.dims → apply checked v op = .ok u) ∧
+    (∀ w, apply checked v op = .ok w → 0 ∉ w.dims → applyRaw checked v op = .ok w) ∧
+    (∀ e, applyRaw checked v op = .error e ↔ apply checked v op = .error e) := by
+  have hcanon : ∀ u : View, 0 ∉ u.dims → u.canon = u := by
+    intro u hu
+    cases u with
+    | mk b d s =>
+      simp only [View.canon]
+      rw [canonDims_of_pos (fun x hx h0 => hu (h0 ▸ hx))]
+  refine ⟨?_, ?_, ?_⟩
+  · intro u hu hz
+    rw [apply_eq, hu]
+    split
+    · simp only [construct, hcanon u hz]
+    · rfl
+  · intro w hw hz
+    obtain ⟨u, hu, rfl⟩ := apply_ok hw
+    split at hz
+    · have hz' : 0 ∉ u.dims := by
+        intro h0
+        apply hz
+        show 0 ∈ canonDims u.dims
+        rw [canonDims_of_zero h0]
+        exact List.mem_map.mpr ⟨0, h0, rfl⟩
+      rw [if_pos (by assumption), hcanon u hz']
+      exact hu
+    · rw [if_neg (by assumption)]
+      exact hu
+  · intro e
+    rw [apply_eq]
+    cases hr : applyRaw checked v op with
+    | ok u => split <;> simp [construct]
+    | error e' => split <;> simp [construct]
+
+/-- every view reachable from a receiver with canonical extents (a freshly allocated array, a default-constructed
+    one) by ANY list of operations has canonical extents -/
+theorem C06_reachable_canonical (checked : Bool) (ops : List Op) (v w : View) (hv : v.dims = canonDims v.dims)
+    (h : run checked v ops = .ok w) : w.dims = canonDims w.dims := run_canonical checked ops v w hv h
+
+/-- so for every such view `empty()` — which tests dimension 0 only — is true EXACTLY when the view has no element:
+    the guard of the library's whole-array loops is exact -/
+theorem C06_isEmpty_iff_no_element (checked rowMajor : Bool) (dims : List Nat) (hd : ∀ d ∈ dims, d ≠ 0)
+    (ops : List Op) (w : View) (h : run checked (fresh rowMajor dims) ops = .ok w) :
+    (w.isEmpty = true ↔ allIndices w.dims = []) ∧ (w.isEmpty = true ↔ ¬ ∃ ix : List Int, InRange ix w.dims) := by
+  have hc : w.Canonical := run_canonical checked ops _ w (fresh_canonical rowMajor hd) h
+  have key : w.isEmpty = true ↔ 0 ∈ w.dims := by
+    unfold View.isEmpty
+    cases hw : w.dims with
+    | nil => simp
+    | cons d ds =>
+      constructor
+      · intro h0
+        have : d = 0 := by simpa using h0
+        simp [this]
+      · intro h0
+        have := canonical_all_zero hc (by rw [hw]; exact h0) d (by rw [hw]; simp)
+        simp [this]
+  refine ⟨key.trans ⟨allIndices_of_zero, allIndices_eq_nil⟩, key.trans ⟨fun hz ⟨ix, hix⟩ => not_inRange_of_zero hz hix, ?_⟩⟩
+  intro hno
+  false_or_by_contra
+  rename_i hz
+  apply hno
+  -- no zero extent: the enumeration is not empty and its members are valid indices
+  have hne : allIndices w.dims ≠ [] := fun he => hz (allIndices_eq_nil he)
+  obtain ⟨ix, hix⟩ := List.exists_mem_of_ne_nil _ hne
+  exact ⟨ix, allIndices_inRange _ _ hix⟩
+
 /-! ## the bounds-checked build -/
 
 /-- `-DADEPT_BOUNDS_CHECKING`: if a scalar index or a range end point (after resolving `end`) is
@@ -183,17 +311,18 @@ theorem C06_checked_rejects {v : View} {args : List Ix} (hwf : v.WF) (hlen : arg
     (ArgsDefined v.dims args → slice v args true = .error .index_out_of_bounds) := by
   constructor
   · intro w hw
-    obtain ⟨inc, hg, _⟩ := slice_ok hw
+    obtain ⟨u, hu, rfl⟩ := construct_ok hw
+    obtain ⟨inc, hg, _⟩ := sliceRaw_ok hu
     exact hoob (sliceGo_checked_adm _ _ _ _ _ _ hg)
   · intro hdef
-    unfold slice
+    unfold slice sliceRaw
     rw [sliceGo_checked_rejects v.dims v.strides args hwf hlen.symm hdef hoob]
     rfl
 
 /-- the same for `operator[]` … -/
 theorem C06_checked_rejects_sub1 {v : View} {e : EndExpr} {d : Nat} {ds : List Nat} {s : Int} {ss : List Int}
     (hd : v.dims = d :: ds) (hs : v.strides = s :: ss) (h : ¬ (0 ≤ e.resolve d ∧ e.resolve d < d)) :
-    sub1 v e true = .error .index_out_of_bounds := sub1_checked_rejects hd hs h
+    sub1 v e true = .error .index_out_of_bounds := construct_err (sub1Raw_checked_rejects hd hs h)
 
 /-- … and for `subset` -/
 theorem C06_checked_rejects_subset {v : View} {be : List (EndExpr × EndExpr)} (hwf : v.WF)
@@ -206,8 +335,12 @@ theorem C06_checked_rejects_subset {v : View} {be : List (EndExpr × EndExpr)} (
     the default build returns -/
 theorem C06_checked_accepts {v w : View} {args : List Ix} (h : slice v args true = .ok w) :
     ArgsAdm v.dims args ∧ slice v args false = .ok w := by
-  obtain ⟨inc, hg, _⟩ := slice_ok h
-  exact ⟨sliceGo_checked_adm _ _ _ _ _ _ hg, slice_checked_imp h⟩
+  obtain ⟨u, hu, rfl⟩ := construct_ok h
+  obtain ⟨inc, hg, _⟩ := sliceRaw_ok hu
+  refine ⟨sliceGo_checked_adm _ _ _ _ _ _ hg, ?_⟩
+  unfold slice
+  rw [sliceRaw_checked_imp hu]
+  rfl
 
 /-- so in the checked build no assumption about index values is needed at all
     (only that `permute` gets a permutation) -/
@@ -544,7 +677,9 @@ theorem C06_stride_expr_addr {base off : Int} {d : Nat} {b e s : EndExpr} {check
     w.base = base + b.resolve d * off ∧ w.strides = [s.resolve d * off] ∧ s.resolve d ≠ 0 ∧
     (∃ n : Nat, w.dims = [n] ∧ (n : Int) = (e.resolve d + s.resolve d - b.resolve d).tdiv (s.resolve d)) ∧
     ∀ i : Int, addr w [i] = addr ⟨base, [d], [off]⟩ [b.resolve d + i * s.resolve d] := by
-  obtain ⟨inc, hg, hb⟩ := slice_ok h
+  have haddr := (C06_slice_addr h).2
+  obtain ⟨u, hu', rfl⟩ := construct_ok h
+  obtain ⟨inc, hg, hb⟩ := sliceRaw_ok hu'
   obtain ⟨i1, o1, i2, nd2, ns2, hu, hr, hinc, hm⟩ := sliceGo_cons_ok hg
   have hr' : sliceGo checked [] [] [] = .ok (i2, nd2, ns2) := hr
   simp only [sliceGo] at hr'
@@ -552,9 +687,9 @@ theorem C06_stride_expr_addr {base off : Int} {d : Nat} {b e s : EndExpr} {check
   obtain ⟨n, o, rfl, hur⟩ := updateIndex_ok hu
   obtain ⟨hd, hs⟩ := hm
   obtain ⟨h1, h2, h3, h4, _⟩ := updateRange_ok hur
-  have haddr := (slice_addr h).2
-  refine ⟨by rw [hb, hinc, h1]; simp, by rw [hs, h2], h3, ⟨n, hd, h4⟩, fun i => ?_⟩
-  have := (haddr [i] (by rw [hd]; rfl)).2
+  have hd' : u.canon.dims = [n] := by simp only [View.canon, hd, canonDims_singleton]
+  refine ⟨by show u.base = _; rw [hb, hinc, h1]; simp, by show u.strides = _; rw [hs, h2], h3, ⟨n, hd', h4⟩, fun i => ?_⟩
+  have := (haddr [i] (by rw [hd']; rfl)).2
   simpa [expandSlice] using this
 
 /-! ## non-vacuity
@@ -575,6 +710,28 @@ example : slice (fresh true [3, 4]) [.at (.lit 3), .all] true = .error .index_ou
 example : ¬ ArgsAdm [3, 4] [.at (.lit 3), .all] := by simp [ArgsAdm, ArgAdm, EndExpr.resolve]
 example : slice (fresh true [6]) [.range (.lit 3) (.lit 2)] true = .ok ⟨3, [0], [1]⟩ := by decide
 example : IsPerm [2, 0, 1] 3 := ⟨rfl, by decide⟩
+
+/-! Rank 3, nothing selected in the MIDDLE position, `T(__,range(2,1),__)` on a 2×3×4 array: the member function
+computes the extents `(2,0,4)` (not `empty()`, although there is no element: the defect), the constructed view has the
+extents `(0,0,0)`, is `empty()`, and keeps `data_` and the offsets; likewise `stride(1,2,-2)` in the last position
+and `operator[]` of a view whose second extent is zero; a selection with elements is unchanged. -/
+example : applyRaw false (fresh true [2, 3, 4]) (.slice [.all, .range (.lit 2) (.lit 1), .all]) = .ok ⟨8, [2, 0, 4], [12, 4, 1]⟩ := by
+  decide
+example : (View.isEmpty ⟨8, [2, 0, 4], [12, 4, 1]⟩ = false ∧ allIndices [2, 0, 4] = []) := by decide
+example : apply false (fresh true [2, 3, 4]) (.slice [.all, .range (.lit 2) (.lit 1), .all]) = .ok ⟨8, [0, 0, 0], [12, 4, 1]⟩ := by
+  decide
+example : (Op.slice [.all, .range (.lit 2) (.lit 1), .all]).constructs = true ∧ 0 ∈ ([0, 0, 0] : List Nat) ∧
+    View.isEmpty ⟨8, [0, 0, 0], [12, 4, 1]⟩ = true := by decide
+example : apply true (fresh true [2, 3, 4]) (.slice [.all, .all, .stride (.lit 1) (.lit 2) (.lit (-2))]) = .ok ⟨1, [0, 0, 0], [12, 4, -2]⟩ := by
+  decide
+example : applyRaw true ⟨0, [2, 0, 4], [12, 4, 1]⟩ (.sub1 (.lit 1)) = .ok ⟨12, [0, 4], [4, 1]⟩ ∧
+    apply true ⟨0, [2, 0, 4], [12, 4, 1]⟩ (.sub1 (.lit 1)) = .ok ⟨12, [0, 0], [4, 1]⟩ := by decide
+example : applyRaw false (fresh true [2, 3, 4]) (.slice [.all, .range (.lit 1) (.lit 2), .at (.lit 1)]) = .ok ⟨5, [2, 2], [12, 4]⟩ ∧
+    apply false (fresh true [2, 3, 4]) (.slice [.all, .range (.lit 1) (.lit 2), .at (.lit 1)]) = .ok ⟨5, [2, 2], [12, 4]⟩ ∧
+    0 ∉ ([2, 2] : List Nat) := by decide
+example : (fresh true [2, 3, 4]).dims = canonDims (fresh true [2, 3, 4]).dims ∧ ∀ d ∈ ([2, 3, 4] : List Nat), d ≠ 0 := by decide
+example : run false (fresh true [2, 3, 4]) [.slice [.all, .range (.lit 2) (.lit 1), .all], .softLink, .sub1 (.lit 0), .T]
+    = .ok ⟨8, [0, 0], [1, 4]⟩ := by decide
 
 /-! `A(1, end, idx)` on a 2×5×4 array with `idx = (3,0,2)`: `end` is resolved against the extent 5 of
 dimension 1 (cells 39, 36, 38 = row (1,4)); the selectors are admissible; in the checked build an entry
